@@ -40,12 +40,19 @@ def run_history(job):
     try:
         w = os.path.join(root, "w")
         os.mkdir(w)
-        for nm, sc in files.items():
-            with open(os.path.join(w, nm + ".xbb"), "w") as fh:
-                fh.write(text_of(sc, rng))
+        epoch = None
+        on_disk = {}
         progs = []
         texts = []
         for k, h in enumerate(hist):
+            if h.get("ep", 1) != epoch:          # the included files are edited between two loads
+                epoch = h.get("ep", 1)
+                for nm, sc in files["e%d" % epoch].items():
+                    if on_disk.get(nm) == sc:      # an edit touches only the files whose contents change
+                        continue
+                    on_disk[nm] = sc
+                    with open(os.path.join(w, nm + ".xbb"), "w") as fh:
+                        fh.write(text_of(sc, rng))
             s = scripts[h["sid"] - 1]
             text = text_of(s, rng)
             texts.append(text)
@@ -60,7 +67,7 @@ def run_history(job):
             if why is None and h["out"]["k"] == "raise" and h["out"]["cls"] == "BSE" and h["out"]["id"] == "syntax" and real[1] != "BlackbirdSyntaxError":
                 why = "syntax error raised %s" % real[1]
             if why:
-                return {"bad": "load %d of the history (%s): %s" % (k + 1, s.get("name", "syntax-error script"), why), "texts": texts,
+                return {"bad": "load %d of the history (%s, file epoch %d): %s" % (k + 1, s.get("name", "syntax-error script"), epoch, why), "texts": texts,
                         "observed": [str(real[:2]) if real[0] == "raise" else "program"]}
             if real[0] == "ok":
                 progs.append(real[1])
@@ -107,7 +114,7 @@ def run(rep, tier, seed):
            "INVARIANT Independent\nINVARIANT TablesCleanWhenIdle\nCONSTRAINT Emit\n" % K)
     r = common.run_tlc("MC_C12", cfg, timeout=3000)
     common.require_ok(r, "MC_C12")
-    rep.add_tlc(r, "MC_C12 all histories of %d loads over 15 scripts (tables persist between loads)" % K)
+    rep.add_tlc(r, "MC_C12 all histories of %d loads over 18 scripts, included files edited between loads (tables persist between loads)" % K)
     if r.violated:
         raise common.MachineryError("MC_C12: the intended specification violates %s" % r.violated)
     # teeth: the as-implemented-before-the-fix switch must produce a counterexample (non-vacuity of Independent)
@@ -120,7 +127,7 @@ def run(rep, tier, seed):
     hists = r.tagged("HIST")
     uniq = {}
     for h in hists:
-        uniq.setdefault(tuple(x["sid"] for x in h), h)
+        uniq.setdefault(tuple((x["sid"], x["ep"]) for x in h), h)
     jobs = [{"scripts": scripts, "files": files, "hist": h, "seed": seed * 31 + i} for i, h in enumerate(uniq.values())]
     ctx = multiprocessing.get_context("fork")
     with ctx.Pool(16, maxtasksperchild=1) as pool:
@@ -129,7 +136,7 @@ def run(rep, tier, seed):
     for job, rr in zip(jobs, res):
         if "bad" in rr:
             nbad += 1
-            rep.violation(rr["bad"] + " | history of scripts " + str([x["sid"] for x in job["hist"]]) + "\n" + "\n---\n".join(rr["texts"]),
+            rep.violation(rr["bad"] + " | history of (script, file epoch) " + str([(x["sid"], x["ep"]) for x in job["hist"]]) + "\n" + "\n---\n".join(rr["texts"]),
                           {"job": job, "texts": rr["texts"], "reason": rr["bad"], "fingerprint": fingerprint(rr["bad"])})
     # histories of random scripts (TLC's Trace_Load is the oracle for each script alone)
     from .. import randcases
@@ -159,7 +166,7 @@ def run(rep, tier, seed):
     rep.cov["evaluations"] += len(jobs)
     rep.cov["distinct_nontrivial"] += len(jobs)
     rep.cov["loads_executed"] = len(jobs) * K
-    rep.cov["rule"] = ("every sequence of %d loads over 15 scripts (valid, template, tdm with p-array, failing at the syntax stage, at an undefined name, "
+    rep.cov["rule"] = ("every sequence of %d loads over 18 scripts, the included files (also a nested one) edited or not between two loads (valid, template, tdm with p-array, failing at the syntax stage, at an undefined name, "
                        "at a type error, inside a loop, inside an include, in the metadata, after a parameter was seen; scripts whose target/type options "
                        "mention x, i, p0, {p}); each history runs in its own fresh process; every outcome compared with the pristine outcome" % K)
     rep.assumptions += ["each history starts in a freshly forked interpreter that has not loaded anything"]
